@@ -354,7 +354,13 @@ class DiffXReader(object):
 
                 self._file_newlines = b'\n'
 
-        assert header.endswith(self._file_newlines)
+        if not header.endswith(self._file_newlines):
+            # This header uses different line endings than the first header
+            # in the file.
+            raise DiffXParseError(
+                'Unexpected line endings for the header: %r' % header,
+                linenum=linenum)
+
         header = header[:-len(self._file_newlines)]
 
         m = self._HEADER_RE.match(header)
